@@ -644,6 +644,7 @@ pub fn dfs(case: &Case, judge: fn(&History) -> Outcome) -> Outcome {
 
 fn cfg_e1(thorough: bool) -> GenCfg {
     let mut c = GenCfg::base(&e1_kinds());
+    c.extra_cap = true;
     c.max_len = if thorough { 40 } else { 12 };
     c.min_threads = 1;
     c.max_threads = 4;
@@ -691,6 +692,7 @@ fn cfg_c05(thorough: bool) -> GenCfg {
     c.huge_chunks = true;
     c.max_len = if thorough { 24 } else { 8 };
     c.end_with_drain = true;
+    c.w_skip = 1;
     c.extra_after_end = if thorough { 200 } else { 40 };
     c.w_len = 1;
     c.w_has = 1;
@@ -830,108 +832,112 @@ pub fn check(ctx: &mut Ctx) -> Option<Meta> {
         "C01" => (
             "E1 deterministic-schedule histories: all source kinds, 1-4 virtual threads, mixed pulling operations, every thread ends with a drain by a generated method, no skip; oracle: every source position delivered exactly once (by value, identity and claimed index); non-trivial = >=2 threads, >=1 context switch between unfinished threads, >=2 threads received elements; dfs campaign: all schedules with <=2 preemptions of small programs; distinct by case hash".into(),
             vec![
-                Plan { name: "sched-exactly-once", cfg: cfg_c01(t), eval: eval_c01, quick: 40_000, thorough_factor: 50 },
-                Plan { name: "sched-dfs-exactly-once", cfg: { let mut c = cfg_small(&e1_kinds()); c.end_with_drain = true; c.max_ops = 1; c }, eval: eval_c01_dfs, quick: dfsq, thorough_factor: 60 },
+                Plan { name: "sched-exactly-once", cfg: cfg_c01(t), eval: eval_c01, quick: 40_000, thorough_factor: 25 },
+                Plan { name: "sched-exactly-once-unwinding-puller", cfg: { let mut c = cfg_c01(t); c.min_threads = 2; c.unwind_pull = true; c }, eval: eval_c01, quick: 15_000, thorough_factor: 25 },
+                Plan { name: "sched-dfs-exactly-once", cfg: { let mut c = cfg_small(&e1_kinds()); c.end_with_drain = true; c.max_ops = 1; c }, eval: eval_c01_dfs, quick: dfsq, thorough_factor: 4 },
             ],
         ),
         "C02" => (
             "E1 histories (as C01, drains optional) + E2 sequential histories; oracle: every (index, value) pair returned by next_id_and_value, chunk begin+offset, ids_and_values and enumerate_for_each equals the source element at that index (value, identity, address for references); non-trivial = indexed delivery with a short or partly consumed chunk under >=2 delivering threads and >=1 switch, or >=2 released waiters".into(),
             vec![
-                Plan { name: "sched-index", cfg: { let mut c = cfg_e1(t); c.w_drain_composite = 1; c.w_drain_elem = 2; c }, eval: eval_c02, quick: 40_000, thorough_factor: 50 },
-                Plan { name: "sched-index-after-panic", cfg: { let mut c = cfg_e1(t); c.kinds = WRAPPED.to_vec(); c.kinds.extend_from_slice(&[Kind::ClonedSlice, Kind::VecOwn]); c.fault_sites = vec![FaultSite::ProbeNext, FaultSite::ProbeNext, FaultSite::Clone, FaultSite::Closure]; c.w_drain_composite = 1; c.w_drain_elem = 2; c.min_threads = 2; c }, eval: eval_c02, quick: 20_000, thorough_factor: 50 },
-                Plan { name: "seq-index", cfg: seq_of({ let mut c = cfg_e1(t); c.w_drain_composite = 1; c }, t), eval: eval_c02_seq, quick: 60_000, thorough_factor: 30 },
+                Plan { name: "sched-index", cfg: { let mut c = cfg_e1(t); c.w_drain_composite = 1; c.w_drain_elem = 2; c.w_skip = 1; c.min_threads = 2; c }, eval: eval_c02, quick: 40_000, thorough_factor: 25 },
+                Plan { name: "sched-index-after-panic", cfg: { let mut c = cfg_e1(t); c.kinds = WRAPPED.to_vec(); c.kinds.extend_from_slice(&[Kind::ClonedSlice, Kind::VecOwn]); c.fault_sites = vec![FaultSite::ProbeNext, FaultSite::ProbeNext, FaultSite::Clone, FaultSite::Closure]; c.w_drain_composite = 1; c.w_drain_elem = 2; c.min_threads = 2; c }, eval: eval_c02, quick: 20_000, thorough_factor: 25 },
+                Plan { name: "seq-index", cfg: seq_of({ let mut c = cfg_e1(t); c.w_drain_composite = 1; c }, t), eval: eval_c02_seq, quick: 60_000, thorough_factor: 25 },
             ],
         ),
         "C03" => (
             "E1 + E2 histories dense in one-shot and buffered chunk pulls with sizes 1..len+3 and partial consumption; oracle: 1 <= len <= n, len() decreases by one per item and equals the number yielded, items are src[begin..begin+len], shorter than n only at the end of the source; non-trivial = partly consumed buffered chunk followed by another pull on the same buffer, or a short final chunk racing with a single pull of another thread".into(),
             vec![
-                Plan { name: "sched-chunks", cfg: cfg_c03(t), eval: eval_c03, quick: 40_000, thorough_factor: 50 },
-                Plan { name: "seq-chunks", cfg: seq_of(cfg_c03(t), t), eval: eval_c03_seq, quick: 200_000, thorough_factor: 50 },
+                Plan { name: "sched-chunks", cfg: cfg_c03(t), eval: eval_c03, quick: 40_000, thorough_factor: 25 },
+                Plan { name: "seq-chunks", cfg: seq_of(cfg_c03(t), t), eval: eval_c03_seq, quick: 200_000, thorough_factor: 25 },
             ],
         ),
         "C04" => (
             "E1 histories with skips + E2 single-threaded sequences; oracle: (a) Wing-Gong linearizability search of the timed pulls/skips against the one-cursor model (memoised on per-thread prefixes), (b) per-thread increasing positions, real-time order implies position order, gap-free prefix at quiescence; non-trivial (E1) = >=2 threads with a real-time-ordered pair and a concurrent pair of pulls on different threads; (E2) = >=3 operations of >=2 kinds".into(),
             vec![
-                Plan { name: "sched-linearizable", cfg: { let mut c = cfg_e1(t); c.w_skip = 1; c }, eval: eval_c04, quick: 40_000, thorough_factor: 50 },
-                Plan { name: "sched-linearizable-huge-chunks", cfg: { let mut c = cfg_e1(t); c.w_skip = 1; c.huge_chunks = true; c.w_chunk = 8; c.min_threads = 2; c }, eval: eval_c04, quick: 20_000, thorough_factor: 50 },
-                Plan { name: "seq-cursor", cfg: seq_of({ let mut c = cfg_e1(t); c.w_skip = 1; c.max_threads = 1; c }, t), eval: eval_c04_seq, quick: 200_000, thorough_factor: 30 },
-                Plan { name: "sched-dfs-linearizable", cfg: { let mut c = cfg_small(&e1_kinds()); c.w_skip = 1; c }, eval: eval_c04_dfs, quick: dfsq, thorough_factor: 60 },
+                Plan { name: "sched-linearizable", cfg: { let mut c = cfg_e1(t); c.w_skip = 1; c }, eval: eval_c04, quick: 40_000, thorough_factor: 25 },
+                Plan { name: "sched-linearizable-huge-chunks", cfg: { let mut c = cfg_e1(t); c.w_skip = 1; c.huge_chunks = true; c.w_chunk = 8; c.min_threads = 2; c }, eval: eval_c04, quick: 20_000, thorough_factor: 25 },
+                Plan { name: "seq-cursor", cfg: seq_of({ let mut c = cfg_e1(t); c.w_skip = 1; c.max_threads = 1; c }, t), eval: eval_c04_seq, quick: 200_000, thorough_factor: 25 },
+                Plan { name: "sched-dfs-linearizable", cfg: { let mut c = cfg_small(&e1_kinds()); c.w_skip = 1; c }, eval: eval_c04_dfs, quick: dfsq, thorough_factor: 4 },
             ],
         ),
         "C05" => (
             "E1 + E2 histories that drain and then continue with up to 40 (thorough: 200) further pulls of all kinds; oracle: after the first end report every later-called pull reports the end and no length query is positive; non-trivial = >=5 pulls called after the first end report, at least one of them a chunk pull".into(),
             vec![
-                Plan { name: "sched-past-end", cfg: cfg_c05(t), eval: eval_c05, quick: 40_000, thorough_factor: 50 },
-                Plan { name: "seq-past-end", cfg: seq_of(cfg_c05(t), t), eval: eval_c05_seq, quick: 100_000, thorough_factor: 50 },
+                Plan { name: "sched-past-end", cfg: cfg_c05(t), eval: eval_c05, quick: 40_000, thorough_factor: 25 },
+                Plan { name: "seq-past-end", cfg: seq_of(cfg_c05(t), t), eval: eval_c05_seq, quick: 100_000, thorough_factor: 25 },
                 // the end can also be reached because the wrapped iterator panicked: still permanent, lengths still not positive
-                Plan { name: "sched-past-end-after-panic", cfg: { let mut c = cfg_c05(t); c.kinds = WRAPPED.to_vec(); c.fault_sites = vec![FaultSite::ProbeNext]; c.w_len = 3; c.w_has = 3; c.extra_after_end = 12; c }, eval: eval_c05, quick: 20_000, thorough_factor: 50 },
-                Plan { name: "seq-past-end-after-panic", cfg: seq_of({ let mut c = cfg_c05(t); c.kinds = WRAPPED.to_vec(); c.fault_sites = vec![FaultSite::ProbeNext]; c.w_len = 3; c.w_has = 3; c.extra_after_end = 12; c }, t), eval: eval_c05_seq, quick: 40_000, thorough_factor: 50 },
+                Plan { name: "sched-past-end-after-panic", cfg: { let mut c = cfg_c05(t); c.kinds = WRAPPED.to_vec(); c.fault_sites = vec![FaultSite::ProbeNext]; c.w_len = 3; c.w_has = 3; c.extra_after_end = 12; c }, eval: eval_c05, quick: 20_000, thorough_factor: 25 },
+                Plan { name: "seq-past-end-after-panic", cfg: seq_of({ let mut c = cfg_c05(t); c.kinds = WRAPPED.to_vec(); c.fault_sites = vec![FaultSite::ProbeNext]; c.w_len = 3; c.w_has = 3; c.extra_after_end = 12; c }, t), eval: eval_c05_seq, quick: 40_000, thorough_factor: 25 },
             ],
         ),
         "C06" => (
             "E1 + E2 histories with 1..3 skip_to_end calls at arbitrary points followed by further pulls; oracle: no pull called after a returned skip delivers, has_more is No, and the whole history has no duplicate, per-thread order and index fidelity; non-trivial (E1) = skip overlapping an in-flight pull, or >= delivered+2 pulls after the skip on a wrapped iterator; (E2) = >=1 pull after the skip".into(),
             vec![
-                Plan { name: "sched-skip", cfg: cfg_c06(t), eval: eval_c06, quick: 40_000, thorough_factor: 50 },
-                Plan { name: "seq-skip", cfg: seq_of(cfg_c06(t), t), eval: eval_c06_seq, quick: 200_000, thorough_factor: 50 },
-                Plan { name: "sched-dfs-skip", cfg: { let mut c = cfg_small(&e1_kinds()); c.w_skip = 4; c }, eval: eval_c06_dfs, quick: dfsq, thorough_factor: 60 },
+                Plan { name: "sched-skip", cfg: cfg_c06(t), eval: eval_c06, quick: 40_000, thorough_factor: 25 },
+                Plan { name: "seq-skip", cfg: seq_of(cfg_c06(t), t), eval: eval_c06_seq, quick: 200_000, thorough_factor: 25 },
+                Plan { name: "sched-dfs-skip", cfg: { let mut c = cfg_small(&e1_kinds()); c.w_skip = 4; c }, eval: eval_c06_dfs, quick: dfsq, thorough_factor: 4 },
             ],
         ),
         "C07" => (
             "E1 histories on iterators wrapping a harness probe: 2-4 threads mixing single, one-shot, buffered pulls and skip; oracle: (a) the probe's next is never entered while another thread is inside, (b) consecutive executions on different threads are ordered by the vector clocks built from the memory orderings the crate passes to the atomic shim; non-trivial = two consecutive probe executions on different threads".into(),
             vec![
-                Plan { name: "sched-probe", cfg: cfg_c07(t), eval: eval_c07, quick: 40_000, thorough_factor: 50 },
-                Plan { name: "sched-dfs-probe", cfg: { let mut c = cfg_small(WRAPPED); c.w_skip = 1; c }, eval: eval_c07_dfs, quick: dfsq, thorough_factor: 60 },
+                Plan { name: "sched-probe", cfg: cfg_c07(t), eval: eval_c07, quick: 40_000, thorough_factor: 25 },
+                Plan { name: "sched-dfs-probe", cfg: { let mut c = cfg_small(WRAPPED); c.w_skip = 1; c }, eval: eval_c07_dfs, quick: dfsq, thorough_factor: 4 },
             ],
         ),
         "C08" => (
             "E1 part: consuming kinds (Vec, [T;N], owning wrapped iterator) under generated schedules with pulls, partial chunk consumption, buffered pulls and concurrent skip_to_end calls, ending in drop or into_seq_iter; oracle: identity ledger (every element dropped exactly once, never while owned, at most one owner); non-trivial = >=2 threads, >=1 context switch and an undelivered part, skip or unconsumed chunk part".into(),
             vec![
-                Plan { name: "sched-ledger", cfg: { let mut c = GenCfg::base(crate::props::CONSUMING); c.max_len = if t { 16 } else { 8 }; c.min_threads = 2; c.max_threads = 4; c.max_ops = 4; c.w_skip = 3; c.terminal_mode = 2; c.sched_len = if t { 300 } else { 120 }; c }, eval: eval_c08, quick: 40_000, thorough_factor: 50 },
-                Plan { name: "sched-ledger-after-panic", cfg: { let mut c = GenCfg::base(crate::props::CONSUMING); c.max_len = if t { 16 } else { 8 }; c.min_threads = 1; c.max_threads = 3; c.max_ops = 3; c.w_skip = 1; c.w_drain_composite = 3; c.end_with_drain = true; c.end_drain_composite = true; c.fault_sites = vec![FaultSite::Closure, FaultSite::Closure, FaultSite::ProbeNext]; c.terminal_mode = 2; c.sched_len = 120; c }, eval: eval_c08, quick: 20_000, thorough_factor: 50 },
-                Plan { name: "sched-dfs-ledger", cfg: { let mut c = cfg_small(crate::props::CONSUMING); c.w_skip = 4; c.terminal_mode = 2; c }, eval: eval_c08_dfs, quick: dfsq, thorough_factor: 60 },
+                Plan { name: "sched-ledger", cfg: { let mut c = GenCfg::base(crate::props::CONSUMING); c.max_len = if t { 16 } else { 8 }; c.min_threads = 2; c.max_threads = 4; c.max_ops = 4; c.w_skip = 3; c.terminal_mode = 2; c.sched_len = if t { 300 } else { 120 }; c }, eval: eval_c08, quick: 40_000, thorough_factor: 25 },
+                Plan { name: "sched-ledger-after-panic", cfg: { let mut c = GenCfg::base(crate::props::CONSUMING); c.max_len = if t { 16 } else { 8 }; c.min_threads = 1; c.max_threads = 3; c.max_ops = 3; c.w_skip = 1; c.w_drain_composite = 3; c.end_with_drain = true; c.end_drain_composite = true; c.fault_sites = vec![FaultSite::Closure, FaultSite::Closure, FaultSite::ProbeNext]; c.terminal_mode = 2; c.sched_len = 120; c }, eval: eval_c08, quick: 20_000, thorough_factor: 25 },
+                Plan { name: "sched-dfs-ledger", cfg: { let mut c = cfg_small(crate::props::CONSUMING); c.w_skip = 4; c.terminal_mode = 2; c }, eval: eval_c08_dfs, quick: dfsq, thorough_factor: 4 },
             ],
         ),
         "C13" => (
             "E1 part: every adaptor kind and its underlying iterator run the same generated multi-threaded program under the same generated *coarse* schedule (threads switch only before the first shared action of an operation, inside the wrapped probe, at closures and when the running thread waits; clones are not yield points), so the interleaving does not depend on the number of atomic accesses per operation; oracle: thread by thread identical results (indices, chunk boundaries, lengths, end / skip behaviour, elements), remainder, source intact; non-trivial = >=2 threads, >=1 context switch and a chunk pull or skip".into(),
             vec![
-                Plan { name: "sched-lockstep", cfg: { let mut c = GenCfg::base(crate::props::ADAPTORS); c.kinds.extend_from_slice(&[Kind::ClonedIterRef, Kind::CopiedIterRef, Kind::ClonedIterRef, Kind::CopiedIterRef]); c.max_len = if t { 16 } else { 8 }; c.min_threads = 2; c.max_threads = 4; c.max_ops = 4; c.w_skip = 3; c.w_len = 1; c.w_has = 1; c.terminal_mode = 2; c.pre_pulls = true; c.sched_len = if t { 300 } else { 160 }; c }, eval: eval_c13, quick: 30_000, thorough_factor: 50 },
+                Plan { name: "sched-lockstep", cfg: { let mut c = GenCfg::base(crate::props::ADAPTORS); c.kinds.extend_from_slice(&[Kind::ClonedIterRef, Kind::CopiedIterRef, Kind::ClonedIterRef, Kind::CopiedIterRef]); c.max_len = if t { 16 } else { 8 }; c.min_threads = 2; c.max_threads = 4; c.max_ops = 4; c.w_skip = 3; c.w_len = 1; c.w_has = 1; c.terminal_mode = 2; c.pre_pulls = true; c.sched_len = if t { 300 } else { 160 }; c }, eval: eval_c13, quick: 30_000, thorough_factor: 25 },
             ],
         ),
         "C10" => (
             "E1 part: all kinds used concurrently under generated schedules (incl. skips), joined, then into_seq_iter; same remainder oracle as the sequential part; non-trivial = >=2 threads, >=1 context switch, >=1 delivery before the conversion".into(),
             vec![
-                Plan { name: "sched-into_seq-huge-chunks", cfg: { let mut c = cfg_e1(t); c.w_skip = 1; c.terminal_mode = 1; c.min_threads = 2; c.huge_chunks = true; c.w_chunk = 8; c }, eval: eval_c10, quick: 15_000, thorough_factor: 50 },
-                Plan { name: "sched-into_seq", cfg: { let mut c = cfg_e1(t); c.w_skip = 1; c.terminal_mode = 1; c.min_threads = 2; c }, eval: eval_c10, quick: 30_000, thorough_factor: 50 },
+                Plan { name: "sched-into_seq-huge-chunks", cfg: { let mut c = cfg_e1(t); c.w_skip = 1; c.terminal_mode = 1; c.min_threads = 2; c.huge_chunks = true; c.w_chunk = 8; c }, eval: eval_c10, quick: 15_000, thorough_factor: 25 },
+                Plan { name: "sched-into_seq", cfg: { let mut c = cfg_e1(t); c.w_skip = 1; c.terminal_mode = 1; c.min_threads = 2; c }, eval: eval_c10, quick: 30_000, thorough_factor: 25 },
             ],
         ),
         "C09" => (
             "E1 histories: wrapped iterators under the fair scheduler (no reachable all-waiting state), known-size kinds with one thread suspended forever at a generated yield point (the others must finish without a single spin-wait episode); non-trivial = wrapped: >=1 waiting episode observed; known-size: the suspension point lies inside an operation and >=2 other threads are active".into(),
             vec![
-                Plan { name: "sched-progress-wrapped", cfg: cfg_c09(t, false), eval: eval_c09, quick: 25_000, thorough_factor: 50 },
-                Plan { name: "sched-lockfree-known-size", cfg: cfg_c09(t, true), eval: eval_c09, quick: 25_000, thorough_factor: 50 },
-                Plan { name: "sched-progress-after-panic", cfg: { let mut c = cfg_c09(t, false); c.fault_sites = vec![FaultSite::ProbeNext, FaultSite::ProbeNext, FaultSite::Closure]; c }, eval: eval_c09, quick: 15_000, thorough_factor: 50 },
-                Plan { name: "sched-dfs-progress", cfg: { let mut c = cfg_small(WRAPPED); c.w_skip = 1; c }, eval: eval_c09_dfs, quick: dfsq, thorough_factor: 60 },
+                Plan { name: "sched-progress-wrapped", cfg: cfg_c09(t, false), eval: eval_c09, quick: 25_000, thorough_factor: 25 },
+                Plan { name: "sched-lockfree-known-size", cfg: cfg_c09(t, true), eval: eval_c09, quick: 25_000, thorough_factor: 25 },
+                Plan { name: "sched-progress-after-panic", cfg: { let mut c = cfg_c09(t, false); c.fault_sites = vec![FaultSite::ProbeNext, FaultSite::ProbeNext, FaultSite::Closure]; c }, eval: eval_c09, quick: 15_000, thorough_factor: 25 },
+                Plan { name: "sched-dfs-progress", cfg: { let mut c = cfg_small(WRAPPED); c.w_skip = 1; c }, eval: eval_c09_dfs, quick: dfsq, thorough_factor: 4 },
             ],
         ),
         "C11" => (
             "E2: try_get_len / has_more after every prefix of sequential histories, compared with the cursor model (exact for known size; None/Maybe only for wrapped iterators; zero/No required after skip or an end seen by a single or one-shot pull); E1: queries racing with pulls: reported lengths never increase along real time and no pull called after a zero/No delivers; non-trivial (E2) = a query with 0 < remaining < len; (E1) = >=2 queries, one overlapping a pull of another thread".into(),
             vec![
-                Plan { name: "seq-len", cfg: cfg_c11(t, true), eval: eval_c11_seq, quick: 300_000, thorough_factor: 30 },
-                Plan { name: "sched-len-racing", cfg: cfg_c11(t, false), eval: eval_c11, quick: 40_000, thorough_factor: 30 },
+                Plan { name: "seq-len", cfg: cfg_c11(t, true), eval: eval_c11_seq, quick: 300_000, thorough_factor: 25 },
+                Plan { name: "sched-len-racing", cfg: cfg_c11(t, false), eval: eval_c11, quick: 40_000, thorough_factor: 25 },
+                // the end reached because the wrapped iterator panicked: lengths must still be what later pulls deliver
+                Plan { name: "seq-len-after-panic", cfg: { let mut c = cfg_c11(t, true); c.kinds = WRAPPED.to_vec(); c.fault_sites = vec![FaultSite::ProbeNext]; c.w_skip = 0; c.end_with_drain = true; c.huge_chunks = false; c }, eval: eval_c11_seq, quick: 40_000, thorough_factor: 25 },
             ],
         ),
         "C12" => (
             "E1 histories: 1-4 threads, each ending in for_each / enumerate_for_each / fold with its own chunk size (1 and >1 mixed), optionally preceded by direct pulls; closures yield to the scheduler; oracle: closure arguments + direct pulls cover every element exactly once with correct indices, fold result = fold of the values passed to the closure, combined folds = sequential fold, every pull after a call returned reports the end; non-trivial = >=2 threads using different chunk sizes one of which is 1".into(),
             vec![
-                Plan { name: "sched-foreach-fold", cfg: cfg_c12(t), eval: eval_c12, quick: 40_000, thorough_factor: 50 },
-                Plan { name: "seq-foreach-fold", cfg: seq_of(cfg_c12(t), t), eval: eval_c12_seq, quick: 40_000, thorough_factor: 30 },
+                Plan { name: "sched-foreach-fold", cfg: cfg_c12(t), eval: eval_c12, quick: 40_000, thorough_factor: 25 },
+                Plan { name: "sched-foreach-fold-unwinding-puller", cfg: { let mut c = cfg_c12(t); c.min_threads = 2; c.unwind_pull = true; c }, eval: eval_c12, quick: 15_000, thorough_factor: 25 },
+                Plan { name: "seq-foreach-fold", cfg: seq_of(cfg_c12(t), t), eval: eval_c12_seq, quick: 40_000, thorough_factor: 25 },
             ],
         ),
         "C18" => (
             "E1 histories with one injected panic: the k-th call of the wrapped probe's next, the k-th element clone or the k-th closure invocation (k enumerated 0..len+1 by the generator), under generated schedules; oracle: the other threads complete (no all-waiting state), no duplicate delivery, identity ledger exactly-once for consumed collections; non-trivial = the fault fired while >=1 other thread was inside an operation or waiting".into(),
             vec![
-                Plan { name: "sched-fault", cfg: cfg_c18(t), eval: eval_c18, quick: 40_000, thorough_factor: 100 },
-                Plan { name: "seq-fault", cfg: seq_of(cfg_c18(t), t), eval: eval_c18_seq, quick: 20_000, thorough_factor: 50 },
+                Plan { name: "sched-fault", cfg: cfg_c18(t), eval: eval_c18, quick: 40_000, thorough_factor: 25 },
+                Plan { name: "seq-fault", cfg: seq_of(cfg_c18(t), t), eval: eval_c18_seq, quick: 20_000, thorough_factor: 25 },
             ],
         ),
         _ => return None,
